@@ -405,6 +405,23 @@ def run(ctx, spec):
             algo = ALGOS[(k + spec["i"]) % len(ALGOS)]
             small = k % 4 == 0
             case = random_case(rng, algo, 6 if small else 10, 5 if small else 8, 4)
+            if k % 8 == 5:
+                # a multifurcating input for an extended solver: the relations hold for it as well (the optimum and the
+                # optimal set over all refinements must not depend on the order in which a node's children are written)
+                from rv.refmodel import trees as RT
+
+                palgo = "superdtl" if k % 16 == 5 else "ext_spfs"
+                no, ns = rng.randint(3, 5), rng.randint(2, 4)
+                Gp = RT.random_multifurcating(rng, gen.object_labels(no), max_poly=1, max_arity=4)
+                Sp = RT.random_binary(rng, gen.species_labels(ns)) if rng.random() < 0.6 or ns < 3 else RT.random_multifurcating(rng, gen.species_labels(ns), max_poly=1, max_arity=3)
+                lmp = {g: rng.choice(gen.species_labels(ns)) for g in gen.object_labels(no)}
+                cst = gen.random_cost(rng, plain=False)
+                if cst["floss"] == 0:
+                    cst["floss"] = 1
+                if not isinstance(Sp, str) and dtl.coherent(num_cost(cst)):
+                    case = {"algo": palgo, "kind": "super", "G": Gp, "S": Sp, "leafmap": lmp, "costs": cst,
+                            "syn": gen.random_syntenies(rng, list(lmp), 3, ordered=palgo == "ext_spfs", consistent_p=1.0)}
+                    ctx.count("polytomy_cases")
             check_relations(ctx, case, rng)
             if ctx.too_many():
                 return
